@@ -81,6 +81,17 @@ Proof.
   exact (C08_outputs_partition_the_input max (fun v => {| sc_filter := Some (F_link v); sc_skip := false; sc_src := src |})
            (fun p => r_link_id (decode_rdh (p_hdr p))) pkts ks Hwf Hnd Hin (fun v _ => conj eq_refl (fun p => eq_refl))).
 Qed.
+(* ... with the values taken from the input itself -- the distinct link ids present, in order of first appearance -- nothing is left to assume *)
+Theorem C08_link_outputs_partition_present : forall max src pkts, Forall wf_pkt pkts ->
+  let ks := nodup N.eq_dec (map (fun p => r_link_id (decode_rdh (p_hdr p))) pkts) in
+  exists sels, Interleave sels pkts /\
+    map (fun v => written max {| sc_filter := Some (F_link v); sc_skip := false; sc_src := src |} (serialize pkts)) ks = map serialize sels.
+Proof.
+  intros max src pkts Hwf ks. apply (C08_link_outputs_partition max src pkts ks Hwf).
+  - apply NoDup_nodup.
+  - intros p Hp. apply nodup_In. apply in_map_iff. exists p. split; [reflexivity|exact Hp].
+Qed.
+
 Theorem C08_fee_outputs_partition : forall max src pkts ks, Forall wf_pkt pkts -> NoDup ks ->
   (forall p, In p pkts -> In (r_fee_id (decode_rdh (p_hdr p))) ks) ->
   exists sels, Interleave sels pkts /\
@@ -187,6 +198,7 @@ Print Assumptions C08_filter_is_key_selection.
 Print Assumptions C08_single_consumer_source_shape.
 Print Assumptions C08_outputs_partition_the_input.
 Print Assumptions C08_link_outputs_partition.
+Print Assumptions C08_link_outputs_partition_present.
 Print Assumptions C08_fee_outputs_partition.
 Print Assumptions C08_stave_outputs_partition.
 Print Assumptions C08_whole_run.
